@@ -223,7 +223,8 @@ func (o *oracle) validate(op Op) string {
 		}
 		if w, restricted := o.writable(op); restricted {
 			for _, l := range ls {
-				if !w[l] {
+				// a path is writable when it is a writable path or lies inside one (f.c inside f)
+				if !w[l] && !((l == "fc" || l == "fd") && w["f"]) {
 					return "InvalidArgument"
 				}
 			}
@@ -293,8 +294,41 @@ func (o *oracle) write(op Op, old *rmsg) (rmsg, string) {
 	noop := hasUM && len(maskLetters(um)) == 0
 	if !noop {
 		m := toSet(um)
+		// the nested message: selected as a whole (its path is writable / named), or some of its sub-fields
+		// are (f.c, f.d) - then each selected sub-field takes the written message's value (zero when that
+		// lacks the nested message) and the nested message is present if it was or the written one has it
+		wholeF, leafC, leafD := !restricted || w["f"], false, false
+		if !wholeF {
+			leafC, leafD = w["fc"], w["fd"]
+		}
+		if hasUM {
+			if m["f"] {
+				// validated: f itself is writable
+			} else {
+				wholeF, leafC, leafD = false, m["fc"], m["fd"]
+			}
+		}
+		if !wholeF && (leafC || leafD) && (dst.f != nil || src.f != nil) {
+			cur, from := [2]int{}, [2]int{}
+			if dst.f != nil {
+				cur = *dst.f
+			}
+			if src.f != nil {
+				from = *src.f
+			}
+			if leafC {
+				cur[0] = from[0]
+			}
+			if leafD {
+				cur[1] = from[1]
+			}
+			dst.f = &cur
+		}
 		for _, f := range allFields {
 			selected := (!restricted || w[f]) && (!hasUM || m[f])
+			if f == "f" {
+				selected = wholeF && (!hasUM || m["f"])
+			}
 			if !selected {
 				continue
 			}
@@ -321,8 +355,19 @@ func (o *oracle) write(op Op, old *rmsg) (rmsg, string) {
 			}
 		}
 		if rs, ok := op.opt("rs"); ok {
-			for f := range toSet(rs) {
+			rset := toSet(rs)
+			for f := range rset {
 				dst.clear(f)
+			}
+			if !rset["f"] && dst.f != nil {
+				cur := *dst.f
+				if rset["fc"] {
+					cur[0] = 0
+				}
+				if rset["fd"] {
+					cur[1] = 0
+				}
+				dst.f = &cur
 			}
 		}
 	}
@@ -378,6 +423,7 @@ func cout(val, err string, evs []string, ids []string, created int) string {
 
 // step answers one request in the driver's format.
 func (o *oracle) step(op Op) string {
+	op = resolve(op) // options are applied in order; the one-step description works on the resolved list
 	switch op.Op {
 	case "get":
 		it, ok := o.items[o.icpt(op.ID)]
@@ -506,6 +552,17 @@ func project(op Op, m rmsg) rmsg {
 		if keep[f] {
 			out.set(f, m.get(f))
 		}
+	}
+	if !keep["f"] && (keep["fc"] || keep["fd"]) && m.f != nil {
+		// only sub-fields of the nested message are selected: it stays present, with those
+		sub := [2]int{}
+		if keep["fc"] {
+			sub[0] = m.f[0]
+		}
+		if keep["fd"] {
+			sub[1] = m.f[1]
+		}
+		out.f = &sub
 	}
 	return out
 }
